@@ -32,7 +32,9 @@ class Atom(RefBase[T], Generic[T]):
 
     def _compare_and_set(self, old: T, new: T) -> bool:
         with self._lock:
-            if self._state != old:
+            # identity first: a value which is not equal to itself (NaN) must still be
+            # replaceable, or every update of such an atom would retry forever
+            if self._state is not old and self._state != old:
                 return False
             self._state = new
             return True
